@@ -342,5 +342,9 @@ def check(run, fx, tier, floors=True):
     t09_sort(run, fx)
     t09_loca(run, fx)
     t09_stale(run, fx)
+    if floors or fx.adt("tables::glyf::CompositeGlyphs") is not None:
+        # the glyf composite codec is shared: reader (used by the WOFF2 reconstruction) and writer must agree on the instruction flag
+        import rules_C15
+        rules_C15.c15_g(run, fx)
     narrowing.rule_narrowing(run, fx, "T09-NARROW", floors=False, roots=None,
                              select=lambda b: b.root.startswith(("subset::FontBuilder", "subset::max_power_of_2", "checksum::")))
